@@ -26,6 +26,12 @@ pub fn main_ops(log: &[Event], id: u64) -> Vec<(bool, Vec<u8>, Vec<u8>)> {
 /// Check a role's log against the schedule. Returns the index (into `log`) of the last
 /// matched item.
 pub fn check_schedule(role: &str, log: &[Event], id: u64, items: &[Item], what: &dyn Fn(String) -> Value) -> Result<usize, Failure> {
+    check_schedule_opt(role, log, id, items, false, what)
+}
+
+/// `allow_truncated`: the run may stop early (a verifier rejecting a malformed proof); what it
+/// did until then must still follow the schedule.
+pub fn check_schedule_opt(role: &str, log: &[Event], id: u64, items: &[Item], allow_truncated: bool, what: &dyn Fn(String) -> Value) -> Result<usize, Failure> {
     // positions of main-transcript events in the log
     let evs: Vec<(usize, &Event)> = log
         .iter()
@@ -82,6 +88,10 @@ pub fn check_schedule(role: &str, log: &[Event], id: u64, items: &[Item], what: 
                 }
                 _ => {}
             }
+        }
+        if !found && allow_truncated {
+            // the run ended here; nothing may have been squeezed after the last matched item
+            return Ok(last);
         }
         if !found {
             return Err(Failure::new(
@@ -173,6 +183,45 @@ fn case<G: CurveTag>(bytes: &[u8], col: &mut Collector) -> Result<(), Failure> {
             }
         }
     }
+    // (7) the verifier absorbs what was actually sent: altered proofs (one element replaced)
+    // must appear in its transcript with their own encodings, up to where it stops
+    {
+        use crate::props::c08::rand_point;
+        use ark_ec::{AffineRepr, CurveGroup};
+        let mut che = Choices::new(&bytes[..cut]);
+        let _ = che.byte();
+        for round in 0..2 {
+            let mut m2 = mirror.clone();
+            let npts = m2.n_points();
+            let what_edit: String;
+            if che.chance(170) {
+                // second-phase placeholders get extra attention
+                let i = if che.chance(90) { 3 + che.below(3) } else { che.below(npts) };
+                let newp: G = if che.chance(128) { rand_point::<G>(che.u16() as u64) } else { (m2.clone().point_mut(i).into_group() + G::generator().into_group()).into_affine() };
+                if newp.is_zero() {
+                    continue;
+                }
+                what_edit = format!("point {} replaced", m2.point_name(i));
+                *m2.point_mut(i) = newp;
+            } else {
+                let i = che.below(3);
+                *m2.scalar_mut(i) += <G as AffineRepr>::ScalarField::from(1u64 + round as u64);
+                what_edit = format!("scalar {} shifted", crate::mirror::SCALAR_NAMES[i]);
+            }
+            let Ok(p2) = m2.to_real() else { continue };
+            let v2 = run_verifier::<G>(&prog, &p.commitments, &p2, &VerifyOpts { record: true, ..Default::default() });
+            if v2.panic.is_some() {
+                continue;
+            }
+            let items2: Vec<Item> = schedule::<G>(&prog, &p.commitments, &m2).into_iter().skip(prog.pre.len()).collect();
+            let what2 = |s: String| -> Value {
+                json!({"program": prog.to_json(), "altered_proof": what_edit, "at": s, "verifier_log": v2.log.iter().map(event_short).collect::<Vec<_>>()})
+            };
+            check_schedule_opt("verifier(altered proof)", &v2.log, v2.main_id, &items2, true, &what2)?;
+            col.class("altered-proof-run");
+            col.evals_add(1);
+        }
+    }
     col.class(if shape.closures > 0 { "two-phase" } else { "one-phase" });
     col.class(&format!("k={}", shape.k()));
     if shape.tdata > 0 {
@@ -220,7 +269,7 @@ pub fn run(tier: &str, seed: u64) -> i32 {
         rep.outcome.merge(replay_corpus("C06", &sub, &|b, col| dispatch(&sub, b, col)));
         rep.outcome.merge(search(&sub, seed, n, 600, &|b, col| dispatch(&sub, b, col)));
     }
-    for (c, f) in [("two-phase", 0.2), ("closure-challenges", 0.1), ("user-data", 0.1), ("bad-witness", 0.1), ("k=2", 0.05), ("owned-transcript", 0.1), ("returned-transcripts-compared", 0.3), ("clone-derived-weight-checked", 0.5)] {
+    for (c, f) in [("two-phase", 0.2), ("closure-challenges", 0.1), ("user-data", 0.1), ("bad-witness", 0.1), ("k=2", 0.05), ("owned-transcript", 0.1), ("returned-transcripts-compared", 0.3), ("clone-derived-weight-checked", 0.5), ("altered-proof-run", 0.5)] {
         rep.required_classes.push((c.to_string(), f));
     }
     rep.finish()
